@@ -2,7 +2,8 @@
 
 Runtime monitor over set_mathml / get_spoken_text / get_braille of the real library.
 Oracle (independent of MathCAT's regexes): a recogniser of the locale's number grammar written from the property statement
-(1-3 digit lead group, 3-digit groups, optional fraction, optional leading/trailing decimal mark) and a small table of which
+(1-3 digit lead group, 3-digit groups, optional fraction — plain, or grouped in threes/fives by a space —, optional leading/trailing
+decimal mark) and a small table of which
 locales write a decimal comma.  Four kinds of cases:
 
   fold      (must-fold domain)  c[s(n)] must canonicalize, speak and braille exactly like c[<mn>n</mn>]
@@ -1222,7 +1223,7 @@ def run(tier, seed):
                                  "trailing decimal mark not the last token of the expression; number is a segment of the leftmost-longest reading of its run",
              "excluded_from_must_fold (observe-only)": ["comma-number-inside-fences", "comma-number-next-to-comma", "leading-or-trailing-comma", "trailing-mark-at-very-end",
                                                         "ambiguous-with-context", "glued separators", "digit-per-mn", "4-hex-digit blocks",
-                                                        "mixed separators", "grouped fractions", "visible separator as mtext"]}
+                                                        "mixed separators", "grouped fraction next to a visibly grouped integer part", "visible separator as mtext"]}
     return core.conclude(
         PROP, tier, seed, "exploration", stats, extra,
         ["the number grammar and the decimal-comma locales are the oracle's own (statement / CLDR practice), not read from canonicalize.rs or prefs.rs",
